@@ -13,7 +13,9 @@ CONSTANTS Keys, Vals, FlagVals, Ttls, CasVals, Deltas, Inits, Quiets, Ops,
           TickTo,        \* clock values a tick may jump to
           Policy, MemLimit, ItemLimit,
           MaxSteps,      \* bound on the number of commands + ticks
-          Emit           \* TRUE: print every maximal behaviour as a program
+          Emit,          \* TRUE: print every maximal behaviour as a program
+          Randomised     \* TRUE (simulation only): each step draws ONE command at random instead of
+                         \* enumerating the alphabet, so that long behaviours are cheap to generate
 
 VARIABLES m, cs, bad, steps, prog
 vars == <<m, cs, bad, steps, prog>>
@@ -61,7 +63,7 @@ Init == /\ m = InitModel(Keys, Policy, MemLimit, ItemLimit)
         /\ bad = {} /\ steps = 0 /\ prog = <<>>
 
 DoCmd == /\ steps < MaxSteps /\ bad = {}
-         /\ \E c \in Cmds : \E o \in ExecSet(m, c) :
+         /\ \E c \in (IF Randomised THEN {RandomElement(Cmds)} ELSE Cmds) : \E o \in ExecSet(m, c) :
                LET e == EventOf(c, o)
                    j == JudgeAll(cs, e)
                IN  /\ m' = o.m
